@@ -35,6 +35,8 @@ pub struct Ev {
     pub site: Site,
     pub worker: usize,
     pub frame: u64, // fnv hash of the frame bytes (0 when the point carries no frame)
+    /// bytes allocated so far by the thread that reached the point (counting allocator)
+    pub thread_alloc: u64,
 }
 
 pub fn fnv(b: &[u8]) -> u64 {
@@ -72,7 +74,7 @@ fn on_point(site: Site, worker: usize, packet: &[u8]) {
     let seq = l.seq.fetch_add(1, Ordering::SeqCst);
     let frame = if packet.is_empty() { 0 } else { fnv(packet) };
     if let Ok(mut e) = l.events.lock() {
-        e.push(Ev { seq, site, worker, frame });
+        e.push(Ev { seq, site, worker, frame, thread_alloc: crate::alloc::thread_snap().alloc });
     }
     if site == Site::WorkerProcessed {
         l.processed.fetch_add(1, Ordering::SeqCst);
@@ -126,6 +128,10 @@ pub fn reset_log(perturb_seed: u64, perturb_rate: u64) {
     let l = log();
     if let Ok(mut e) = l.events.lock() {
         e.clear();
+        // pushes at the hook points must not allocate (the points are used for allocation accounting)
+        if e.capacity() < (1 << 16) {
+            e.reserve(1 << 16);
+        }
     }
     l.seq.store(0, Ordering::SeqCst);
     l.processed.store(0, Ordering::SeqCst);
